@@ -105,6 +105,12 @@ def run_track_correspondence(ctx, prop: str, n_per_kind: int, kinds=None, ulps: 
                 ctx.escalate = True
                 bad.append((p, En, bt, what, P, sv))
                 rep.notes.append(f"track correspondence mismatch {p['cls']} {bt}: {what}")
+                obs = what.split(":")[0].split(" ")[0]
+                rep.fail("correspondence", f"{prop}|model-mismatch|{p['cls']}.track|{bt}|{obs}",
+                         f"{p['cls']}.track({bt}) no longer matches the Lean model Elem.track{'P' if bt == 'ParticleBeam' else 'M'}: {what}",
+                         {"kind": "track", "params": p, "energy": En, "beam": bt, "particles": P.tolist(),
+                          "survival": sv.tolist(), "broken": f"correspondence {p['cls']}.track <-> CheetahModel.Elements"},
+                         found_input=False)
     return bad
 
 
